@@ -9,7 +9,7 @@ import subprocess
 
 from .. import engine_hist as H
 from .. import rd_model
-from ..vlib import build, tlc, util
+from ..vlib import apalache, build, tlc, util
 from ..vlib.report import MachineryError, Report
 
 PROP = "C11"
@@ -235,6 +235,14 @@ def run(tier, selftest=False, only=None):
             raise MachineryError("TLC failed: %s\n%s" % (r.error, r.tail(20)))
     old = tlc.run("EngineMem", cfg="MC_EngineMemOld", timeout=1200, heap="8g")
     rep.selftest("spec-mutant: reading t_samples[pos] before the bound test violates CursorSafe", old.violated == "CursorSafe", str(old.violated))
+    # the same two facts for ALL sizes (Apalache, symbolic): flat offsets inside their arrays, cursor read after the bound test
+    apalache.obligations(rep, "OffsetsInd",
+                         [("initial states satisfy the invariant", "Init", "IndInv", 0),
+                          ("the invariant is inductive", "IndInit", "IndInv", 1),
+                          ("the invariant implies offset and cursor safety", "IndInit", "Safe", 0)],
+                         [("mesh_x one entry short", [("In(i * nS + s, nC * nS) ", "In(i * nS + s, nC * nS - 1) ")], "IndInit", "Safe", 0),
+                          ("trajectory offset uses the species stride for the cell", [("k * nC * nS + s * nC + i", "k * nC * nS + s * nS + i")], "IndInit", "Safe", 0),
+                          ("cursor read without the bound test (code before fix F2)", [("  /\\ pos < nTs\n", "  /\\ pos <= nTs\n")], "IndInit", "IndInv", 1)])
     hj = history_jobs(rng, tier)
     mj = model_jobs(rng, 240 if tier == "quick" else 3000)
     dispatch(rep, "san", hj, "histories")
